@@ -5,6 +5,7 @@
 import ALV.Lemmas.C16
 import ALV.Lemmas.C16Inv
 import ALV.Lemmas.C16Ctl
+import ALV.Lemmas.C16Batch
 import ALV.Common.Audit
 
 namespace ALV.Props.C16
@@ -50,6 +51,100 @@ the value most recently assigned before it (the constructor's value if none). -/
 theorem control_last_value (init : β) (ops : List (COp β)) : crun init ops = cspec init ops :=
   crun_eq_cspec ops init
 
+/-- **C16.5** (the next sample after any history, in closed form).  Let `s` be the spec's log
+after the history `ops` (events with starts `max(⌈T_i − 1/2⌉, moment added)`, `n` samples
+delivered).  One more `next` on the *model* raises StopIteration iff the stream had already ended
+or keep is off and every event is over (`max_i(start_i + len_i) ≤ n`: nothing playing, nothing
+pending); otherwise it delivers `zero + Σ_{start_i ≤ n < start_i+len_i} data_i[n − start_i]`. -/
+theorem next_after_history [Add α] (zero : α) (keep : Bool) (ops : List (Op α)) :
+    (mrun zero (MState.init keep) (ops ++ [.next])).2 =
+      (mrun zero (MState.init keep) ops).2 ++
+        [if (srun zero (SState.init keep) ops).1.dead = true ∨
+            ((srun zero (SState.init keep) ops).1.keep = false ∧
+              mixLength (srun zero (SState.init keep) ops).1.evs ≤ (srun zero (SState.init keep) ops).1.n)
+         then .stop
+         else outObs zero (srun zero (SState.init keep) ops).1.evs (srun zero (SState.init keep) ops).1.n] := by
+  rw [streamix_model_eq_spec, streamix_model_eq_spec, srun_append]
+  generalize (srun zero (SState.init keep) ops).1 = s
+  simp only [srun, List.append_cancel_left_eq, List.cons.injEq, and_true]
+  by_cases hd : s.dead = true
+  · rw [sstep_next_dead zero s hd, if_pos (Or.inl hd)]
+  · have hd' : s.dead = false := by simpa using hd
+    by_cases hstop : s.keep = false ∧ mixLength s.evs ≤ s.n
+    · rw [sstep_next_stop zero s hd' ⟨hstop.1, (allDone_iff _ _).2 hstop.2⟩, if_pos (Or.inr hstop)]
+    · have h1 : ¬ (s.keep = false ∧ ∀ e ∈ s.evs, e.doneAt s.n) := fun h =>
+        hstop ⟨h.1, (allDone_iff _ _).1 h.2⟩
+      rw [sstep_next_out zero s hd' h1, if_neg (by rintro (h | h); exact hd h; exact hstop h)]
+
+/-- **C16.6** (termination clause, events added before playback, keep off).  `k` consecutive
+`next`s after a batch of events with non-negative deltas deliver exactly the samples
+`0 … L−1` of the closed formula and then StopIteration for ever, `L = max_i(start_i + len_i)`
+(`L = 0`: the very first `next` stops), `start_i = ⌈T_i − 1/2⌉`. -/
+theorem finite_mix_batch [Add α] (zero : α) (evs : List (Rat × List α)) (h : ∀ p ∈ evs, 0 ≤ p.1)
+    (k : Nat) :
+    (mrun zero (MState.init false) (addOps evs ++ List.replicate k .next)).2 =
+      List.replicate evs.length .ok ++
+        ((List.range' 0 (min k (mixLength (batchLog 0 0 evs)))).map (outObs zero (batchLog 0 0 evs)) ++
+          List.replicate (k - mixLength (batchLog 0 0 evs)) .stop) := by
+  rw [streamix_model_eq_spec, srun_append, srun_addOps zero evs _ h]
+  rw [srun_nexts_finite zero k _ rfl rfl]
+  simp [SState.init]
+
+/-- **C16.7** (keep on): the same batch never ends; past `L` every sample is the zero value. -/
+theorem keep_mix_batch [Add α] (zero : α) (evs : List (Rat × List α)) (h : ∀ p ∈ evs, 0 ≤ p.1)
+    (k : Nat) :
+    (mrun zero (MState.init true) (addOps evs ++ List.replicate k .next)).2 =
+      List.replicate evs.length .ok ++ (List.range' 0 k).map (outObs zero (batchLog 0 0 evs)) := by
+  rw [streamix_model_eq_spec, srun_append, srun_addOps zero evs _ h]
+  rw [srun_nexts_keep zero k _ rfl rfl]
+  simp [SState.init]
+
+theorem zero_after_end [Add α] (zero : α) (evs : List (SEv α)) (n : Nat) (h : mixLength evs ≤ n) :
+    outAt zero n evs = zero :=
+  outAt_of_done zero evs n h
+
+/-- **C16.8** with keep on and never switched off, no `next` ever raises StopIteration, for any
+interleaving of adds and nexts. -/
+theorem keep_never_ends [Add α] (zero : α) (ops : List (Op α)) (h : keepOn ops) :
+    ∀ o ∈ (mrun zero (MState.init true) ops).2, o ≠ .stop :=
+  mrun_keep zero ops _ rfl rfl h
+
+/-- **C16.9** the end is final: if a `next` raised StopIteration, nothing that follows — more
+events, more `next`s, switching keep on — ever delivers a sample again. -/
+theorem end_is_final [Add α] (zero : α) (m : MState α) (h : (mstep zero m .next).2 = .stop)
+    (ops : List (Op α)) :
+    ∀ o ∈ (mrun zero (mstep zero m .next).1 ops).2, ∀ v k, o ≠ .out v k :=
+  (mrun_ended zero ops _ (mnext_stop_ended zero m h)).2
+
+/-- **C16.10** (no drift, events added before playback).  Event `i` starts at the sample nearest
+to its exact cumulative time `T_i = d_0 + … + d_i` (a tie `k + 1/2` goes to `k`): the error is
+below half a sample for every `i`, however many fractional deltas were accumulated. -/
+theorem no_drift (evs : List (Rat × List α)) (h : ∀ p ∈ evs, 0 ≤ p.1) :
+    List.Forall₂ (fun (e : SEv α) (Ti : Rat) =>
+        (e.start : Int) = nearest Ti ∧ Ti - 1/2 ≤ ((e.start : Int) : Rat) ∧ ((e.start : Int) : Rat) < Ti + 1/2)
+      (batchLog 0 0 evs) (cumTimes 0 (evs.map (·.1))) := by
+  refine forall2_imp ?_ (batchLog_starts evs 0 (le_refl _) h)
+  intro e Ti he
+  rw [he]
+  exact ⟨rfl, nearest_within_half Ti⟩
+
+/-- **C16.11** (any interleaving) events start in the order they were added, and the start the
+spec gives a new event, `max(⌈T − 1/2⌉, moment)`, is never before the start of an earlier one:
+the three-term formula `max(⌈T_i − 1/2⌉, moment added, start_{i−1})` is the same number. -/
+theorem starts_sorted [Add α] (zero : α) (keep : Bool) (ops : List (Op α)) :
+    List.Pairwise (fun a b => a.start ≤ b.start) (srun zero (SState.init keep) ops).1.evs :=
+  (logInv_run zero ops _ (logInv_init keep)).2.1
+
+theorem start_three_term [Add α] (zero : α) (keep : Bool) (ops : List (Op α)) (d : Rat) (hd : 0 ≤ d) :
+    ∀ e ∈ (srun zero (SState.init keep) ops).1.evs,
+      max (startTime ((srun zero (SState.init keep) ops).1.T + d) (srun zero (SState.init keep) ops).1.n) e.start =
+        startTime ((srun zero (SState.init keep) ops).1.T + d) (srun zero (SState.init keep) ops).1.n := by
+  intro e he
+  have h := (logInv_run zero ops _ (logInv_init keep)).2.2 e he
+  have := startTime_mono (T := (srun zero (SState.init keep) ops).1.T)
+    (T' := (srun zero (SState.init keep) ops).1.T + d) (by linarith) (Nat.le_refl (srun zero (SState.init keep) ops).1.n)
+  omega
+
 /-! non-vacuity: the statements are about non-trivial inputs -/
 
 -- the docstring example: [-1, 1, 4, 1, -3, -5, -7, -1], then the end
@@ -58,6 +153,29 @@ example : (mrun (0 : Int) (MState.init false)
      .next, .next, .next, .next, .next, .next, .next, .next, .next]).2
     = [.ok, .ok, .ok, .out (-1) 1, .out 1 0, .out 4 2, .out 1 0, .out (-3) 0, .out (-5) 0, .out (-7) 0,
        .out (-1) 0, .stop] := by decide +kernel
+
+-- fractional deltas 1/2, 1/2, 1/2, 1 (T = 1/2, 1, 3/2, 5/2): starts 0, 1, 1, 2; length 2 + 1 = 3
+example : (batchLog 0 0 [((1:Rat)/2, [(1:Int)]), (1/2, [10]), (1/2, [100, 100]), (1, [1000])]).map (·.start)
+    = [0, 1, 1, 2] := by decide +kernel
+example : mixLength (batchLog 0 0 [((1:Rat)/2, [(1:Int)]), (1/2, [10]), (1/2, [100, 100]), (1, [1000])]) = 3 := by
+  decide +kernel
+example : (mrun (0 : Int) (MState.init false)
+    (addOps [((1:Rat)/2, [(1:Int)]), (1/2, [10]), (1/2, [100, 100]), (1, [1000])] ++ List.replicate 5 .next)).2
+    = [.ok, .ok, .ok, .ok, .out 1 1, .out 110 2, .out 1100 1, .stop, .stop] := by decide +kernel
+-- a late addition starts at the moment it was added, not at its (past) cumulative time;
+-- adding after the end does not revive the stream
+example : (mrun (0 : Int) (MState.init false)
+    [.add 0 [1, 1, 1], .next, .next, .add 0 [10], .next, .next, .add 5 [7], .next, .add 0 [3], .next]).2
+    = [.ok, .out 1 1, .out 1 0, .ok, .out 11 1, .stop, .ok, .stop, .ok, .stop] := by decide +kernel
+-- keep on: zero for ever after the events
+example : (mrun (0 : Int) (MState.init true) [.add 1 [5], .next, .next, .next, .next]).2
+    = [.ok, .out 0 0, .out 5 1, .out 0 0, .out 0 0] := by decide +kernel
+-- a rejected add
+example : (mrun (0 : Int) (MState.init false) [.add (-1) [5], .next]).2 = [.valueError, .stop] := by
+  decide +kernel
+-- ControlStream
+example : crun (7 : Nat) [.read, .set 9, .read, .read, .set 1, .set 2, .read] =
+    [some 7, none, some 9, some 9, none, none, some 2] := by decide
 
 end ALV.Props.C16
 
